@@ -74,6 +74,11 @@ func (c *Chain) ftAbs() (ftState, []string) {
 
 var ftSegs = []string{"home", "docs", "pics", "a", "b", "日本", "x y", "", "s", "50% off", "100%", "a%%b", "%s", "%5d", "tab\there", "quote\"q", "é"}
 
+func helperJ(path string) []string {
+	a, b := fttypes.MerkleHelper(path)
+	return []string{a, b}
+}
+
 func randPath(r *rand.Rand) string {
 	n := 1 + r.Intn(4)
 	segs := []string{"s"}
@@ -129,7 +134,8 @@ func runFiletree(seed int64, histories, steps int, out *Emitter) {
 				out.Emit(map[string]interface{}{"mod": "path", "hist": hi, "i": i, "path": p, "child": child,
 					"merklePath": fttypes.MerklePath(p), "childHash": hexHash(child),
 					"added": fttypes.AddToMerkle(fttypes.MerklePath(p), hexHash(child)),
-					"joined": fttypes.MerklePath(p + "/" + child), "trailing": fttypes.MerklePath(p + "/"), "op": "path", "ok": true})
+					"joined": fttypes.MerklePath(p + "/" + child), "trailing": fttypes.MerklePath(p + "/"),
+					"helpers": [][]string{helperJ(p), helperJ(p + "/" + child), helperJ(p + "/")}, "op": "path", "ok": true})
 				out.Count("path.merklePath", true)
 			}
 			files := c.A.FileTreeKeeper.GetAllFiles(c.Ctx())
